@@ -336,7 +336,7 @@ def render(node):
     """abstract tree -> plain JSON-able value (nested documents become strings)."""
     if isinstance(node, Doc):
         if node.kind == "json":
-            s = json.dumps(render(node.tree), separators=(",", ":"))
+            s = json.dumps(render(node.tree), separators=(",", ":"), sort_keys=True)
         else:
             (root, val), = node.tree.items()
             s = ('<?xml version="1.0" encoding="UTF-8"?>\n' if node.decl else "") + xml_text(root, render_xml(val))
@@ -871,3 +871,80 @@ def gen_c15(ctx, n_records):
                     q = "true and " + q
                 cases.append({"tree": tree, "record": rec, "specs": specs, "forms": [f for f, _ in o], "query": q})
     return cases
+
+
+# ---- correspondence with the Coq model (coq/KflText/Redact.v + RJson.v) -----------------------
+def canonical(v):
+    """Returned record with every nested JSON document re-rendered compactly with sorted keys
+    (oj.JSON writes Go-map order); the model keeps the key order of its input, which the
+    generator renders sorted."""
+    if isinstance(v, dict):
+        return {k: canonical(v[k]) for k in sorted(v)}
+    if isinstance(v, list):
+        return [canonical(x) for x in v]
+    if isinstance(v, str):
+        text, wrapped = v, False
+        try:
+            if len(v) % 4 == 0 and v:
+                text, wrapped = base64.b64decode(v, validate=True).decode("utf-8"), True
+        except Exception:
+            text, wrapped = v, False
+        try:
+            inner = json.loads(text)
+        except Exception:
+            return v
+        if not isinstance(inner, (dict, list)):
+            return v
+        t = json.dumps(canonical(inner), separators=(",", ":"), sort_keys=True)
+        return base64.b64encode(t.encode()).decode() if wrapped else t
+    return v
+
+
+def jv_term(v):
+    if v is None:
+        return "JNull"
+    if isinstance(v, bool):
+        return "JBool true" if v else "JBool false"
+    if isinstance(v, int):
+        return "JNum (%d)%%Z" % v
+    if isinstance(v, str):
+        return "JStr " + coq_str(v)
+    if isinstance(v, list):
+        return "JArr [" + "; ".join(jv_term(x) for x in v) + "]"
+    if isinstance(v, dict):
+        return "JObj [" + "; ".join("(%s, %s)" % (coq_str(k), jv_term(v[k])) for k in sorted(v)) + "]"
+    raise ValueError(v)
+
+
+def segs_term(spec):
+    """One argument of redact as the list of its .json()-separated pieces (no xml hop)."""
+    pieces, cur = [], []
+    for st in spec:
+        if st[0] == "json":
+            pieces.append(cur)
+            cur = []
+        elif st[0] in ("child", "bracket"):
+            cur.append("Child " + coq_str(st[1]))
+        elif st[0] == "nth":
+            cur.append("Nth (%d)%%Z" % st[1])
+        elif st[0] == "wild":
+            cur.append("Wild")
+        elif st[0] == "desc":
+            cur.append("Desc")
+        else:
+            raise ValueError(st)
+    pieces.append(cur)
+    return "[" + "; ".join("{| sjp := [%s]; sxml := None |}" % "; ".join(p) for p in pieces) + "]"
+
+
+def model_comparable(case):
+    """Cases the model's correspondence covers: JSON paths and json() hops only, and none of the
+    recorded classes whose outcome depends on Go map order (wildcard before a hop)."""
+    for sp in case["specs"]:
+        if any(st[0] in ("xml", "xchild", "xidx") for st in sp):
+            return False
+        if "wildcard-before-hop" in classify_path(sp, case["tree"]):
+            return False
+        if not sp or sp[-1][0] in ("json", "desc"):
+            return False
+    return True
